@@ -337,6 +337,12 @@ Definition decide_op (it : string * gprog) : list N :=
   | Some r => if checks_before_sends_op r (snd it) then [1] else 2 :: env_list (op_witness r (snd it))
   end.
 
+(** branches (argument tests) on the violating path of a refuted constructor / operation *)
+Definition decide_ctor_path (it : string * gprog) : list (string * bool) :=
+  match assoc (fst it) role_specs with Some r => ctor_witness_path r (snd it) | None => [] end.
+Definition decide_op_path (it : string * gprog) : list (string * bool) :=
+  match assoc (fst it) op_specs with Some r => op_witness_path r (snd it) | None => [] end.
+
 (** every (name, value) of the spec's numbering appears in the enum imported from the code *)
 Definition enum_consistent (gen : list (string * list (string * N))) : list (string * string) :=
   flat_map (fun d =>
